@@ -247,6 +247,8 @@ class Facts:
         self.path = path
         with open(path) as f:
             self.j = json.load(f)
+        import inline
+        self.inlined = inline.apply(self.j, os.path.dirname(os.path.dirname(os.path.abspath(__file__))))
         self.bodies = [Body(b, self) for b in self.j["bodies"]]
         self.by_key = {}
         self.by_path = defaultdict(list)
